@@ -31,7 +31,7 @@ def strategy(tier):
 
 
 def n_random(tier):
-    return 1600 if tier == "quick" else 80000
+    return 1600 if tier == "quick" else 10000
 
 
 def check(case):
